@@ -67,6 +67,10 @@ var c15Defaulted = map[string]struct{ pkg, fn, obj string }{
 
 func c15(c *Ctx) {
 	p := c.P
+	// the two functions named in the exception table stay functions in the expanded view, so that an
+	// exception keeps meaning "this panic in this function" and nothing wider
+	p.Func("pkg/k8s", "podNetworkType")
+	p.Func("plugin/terway", "getDatePath")
 	c.Rule("C15.P1", "a result of strings.Index*/LastIndex*/IndexFunc used as an index or slice bound is dominated by a test that excludes −1")
 	c.Rule("C15.P2", "a constant index into a slice-typed local (Split/Fields/FindStringSubmatch results, filtered lists …) is dominated by len > k (the guaranteed first element of strings.Split is known)")
 	c.Rule("C15.P3", "no single-value type assertion (only comma-ok or type switch) on decoded values")
